@@ -204,3 +204,25 @@ PROPS["C11"] = dict(
                 quick=dict(workers=8, checks=1500, steps=25, watchdog_s=900),
                 thorough=dict(workers=16, checks=150000, steps=25, watchdog_s=7200, max_clients=64))],
 )
+
+PROPS["C12"] = dict(
+    level="exploration",
+    engine="hist",
+    technique="deterministic simulation: seeded histories of Set/Get/Has/Clear/ClearAll/Range/ExtensionFieldNumber, runtime round trips (lazily decoded extensions) and mismatched-runtime descriptors against a model map and the owning runtime's own extension API; rapid shrinking",
+    design_ref="DESIGN.md 4.1, 5 (C12)",
+    level_text=("Seeded search over operation histories on messages with extensions of each runtime: gogo (example BaseEvent with a message-typed extension, descriptor.FieldOptions/"
+                "MessageOptions with bool and string gogoproto extensions), protobuf-go v2 (example BaseEvent of both the googlev1 and googlev2 packages with the message-typed "
+                "extension plus bool/int32/string/bytes/enum extensions built dynamically, descriptorpb.FeatureSet with gofeaturespb), and a hand-written pre-ProtoReflect legacy "
+                "fixture that is classified MessageTypeGoogleV1. After every step: Has/Get agree with a model map and with the owning runtime's own API, Range visits exactly the set "
+                "field numbers and propagates a failing callback's error, cleared extensions are absent from csproto.Marshal output, and a descriptor of another runtime yields "
+                "false/error (ClearExtension: documented panic) and leaves the message unchanged."),
+    level_note="Trusted: the runtimes' own extension APIs (oracle), protobuf-go reflection for digests, the legacy fixture.",
+    needs=["corpus"],
+    rule=("one execution = one host message type and a drawn history over the operation alphabet; non-trivial = at least two judged operations; distinct = hash of host and steps"),
+    real=["extensions.go (all three arms)", "message_types.go", "gogo / golang v1 / protobuf-go extension APIs incl. lazy decoding after a runtime round trip", "regenerated BaseEvent Marshal for the absence check"],
+    model=["extension map (oracle)", "hand-written legacy message fixture and dynamic extension descriptors"],
+    assumptions=["golang/protobuf's ExtensionDesc is an alias of protobuf-go's ExtensionInfo, so only gogo<->google descriptor pairs are real mismatches"],
+    tests=[dict(name="TestC12Hist", pkg="c12", race=False, mem_gb=16,
+                quick=dict(workers=16, checks=3000, steps=30, watchdog_s=900),
+                thorough=dict(workers=16, checks=250000, steps=40, watchdog_s=7200))],
+)
